@@ -9,6 +9,8 @@ ORACLE = "vf.sim.props:c03"
 def plan(tier):
     PT = dict(kinds=("P", "T"))
     pl = [(PG.cancel_prog(1), 1, PT), (PG.cancel_two_threads(1), 1, PT),
+          (PG.cancel_two_threads(1), 1, dict(kinds=("P", "T"), starve="parent:user")),
+          (PG.cancel_two_threads(2), 1, dict(kinds=("P",), starve="parent:user")),
           (PG.two_submitters(2, 0.05), 1, PT), (PG.two_submitters(1, None), 1, PT),
           (PG.resize_with_map(1, 2, 0.05), 1, PT), (PG.bursts(2, 0.05), 1, PT),
           (PG.cancel_run(6, 1), 1, PT), (PG.cancel_run(3, 2), 1, PT),
